@@ -83,7 +83,7 @@ def parse_reports(text):
         for line in b.splitlines():
             m = _HDR.match(line)
             if m:
-                cur = dict(kind=m.group(1), frames=[], restored=True)
+                cur = dict(kind=m.group(1), frames=[], files=[], restored=True)
                 accesses.append(cur)
                 continue
             if cur is None:
@@ -94,10 +94,35 @@ def parse_reports(text):
             if "failed to restore the stack" in line:
                 cur["restored"] = False
                 continue
-            if line.startswith("  ") and not line.startswith("      "):
+            if line.startswith("      "):      # "      <file>:<line> +0x..": the location of the frame above
+                if cur["frames"]:
+                    cur["files"][-1] = line.strip().split(" ")[0].rsplit(":", 1)[0]
+            elif line.startswith("  "):
                 cur["frames"].append(line.strip())
+                cur["files"].append("")
         reps.append(dict(accesses=accesses[:2], raw=b.strip()[:6000]))
     return reps
+
+
+def lib_name(fn, path):
+    """Name of a library frame.  A generic function of the library instantiated for a type of another package
+    carries that package's symbol prefix (main.init.7.func3.Processor[go.shape.int].Once.4, located in
+    github.com/tychoish/fun@v0.0.0/process.go): it is named after the library package of its file."""
+    if fn.startswith(LIB):
+        return simplify(fn)
+    name = simplify(fn).split(".")
+    name = name[1:]                                       # the instantiating package
+    while name and re.fullmatch(r"init|\d+|func\d+|gowrap\d+|deferwrap\d+", name[0]):
+        name = name[1:]
+    rel = path.split("@", 1)[1].split("/", 1)[1] if "@" in path else path.rsplit("tychoish/fun/", 1)[-1]
+    pkg = os.path.dirname(rel).replace("/", ".") or "fun"
+    return pkg + "." + ".".join(name)
+
+
+def in_library(fn, path, lib_prefixes):
+    if any(fn.startswith(p) for p in lib_prefixes):
+        return True
+    return LIB in lib_prefixes and (path.startswith(LIB + "@") or path.startswith("/repo/"))
 
 
 def classify(rep, lib_prefixes=(LIB,)):
@@ -110,10 +135,10 @@ def classify(rep, lib_prefixes=(LIB,)):
         return "incomplete", None, []
     inner = []
     for a in acc:
-        libf = [f for f in a["frames"] if any(f.startswith(p) for p in lib_prefixes)]
+        libf = [(f, p) for f, p in zip(a["frames"], a["files"]) if in_library(f, p, lib_prefixes)]
         if not libf:
             return "foreign", None, []
-        inner.append(simplify(libf[0]))
+        inner.append(lib_name(*libf[0]) if LIB in lib_prefixes else simplify(libf[0][0]))
     key = "race/" + "+".join(sorted(inner))
     return "library", key, inner
 
